@@ -12,6 +12,7 @@ from __future__ import annotations
 
 import collections
 import json
+import os
 import re
 import time
 
@@ -24,14 +25,16 @@ import p_schema as PS
 import translate_re as TR
 from codec import M, sansldap
 
-LEAN_TARGETS = ["Verif.Props.C18", "Verif.Props.C18Filter", "Verif.Props.C18Recv", "Verif.Props.C18Decode", "Verif.Props.TiesSchema"]
+LEAN_TARGETS = ["Verif.Props.C18", "Verif.Props.C18Filter", "Verif.Props.C18Recv", "Verif.Props.C18Decode", "Verif.Props.TiesSchema", "Verif.Props.SmallMore"]
 LEVEL = "proof"
 ASSUMPTIONS = [
     "the running time of CPython's re engine on an input is at most a constant times the size of the backtracking search tree (Re.work)",
     "the hand-written recursive parsers have counting models (filter text parser, receive's parse loop, BER filter decoder) with proved linear call "
     "bounds, tied by comparing call counts under a profiler hook; the work inside one call and the schema post-processing are covered by "
     "deterministic step counts (executed source lines against 100(n+1)^2+5000) and timing families only",
-    "wall-clock constants are outside the model; timing thresholds are generous (a family is exponential only if it multiplies per added unit)",
+    "machine speed is outside the model; times are CPU seconds of the measuring process (not wall clock), a flagged family is measured twice and judged on the "
+    "smaller times; a family is super-polynomial only if its local exponent log(t2/t1)/log(n2/n1) stays above 4 over the last three steps with the last "
+    "call above 0.25 CPU s, or one call exceeds 2 CPU s; a measurement that cannot be taken is exit 2 (inconclusive), never a violation",
 ]
 
 EXP_RATIO = 5.0     # work(k+3)/work(k) above this on two consecutive steps = multiplies per unit (a degree-3 polynomial gives < 2.3 at these k)
@@ -134,19 +137,20 @@ class MatchTimeout(BaseException):
 
 
 def limited_match(pat, x, seconds=2.0):
-    """pat.match(x) under an interval timer (CPython's engine polls for signals while it backtracks)"""
+    """pat.match(x) under an interval timer that counts this process's CPU time (a loaded or paused machine cannot trip it;
+    CPython's engine polls for signals while it backtracks)"""
     import signal
 
     def on_alarm(signum, frame):
         raise MatchTimeout()
 
-    old = signal.signal(signal.SIGALRM, on_alarm)
-    signal.setitimer(signal.ITIMER_REAL, seconds)
+    old = signal.signal(signal.SIGVTALRM, on_alarm)
+    signal.setitimer(signal.ITIMER_VIRTUAL, seconds)
     try:
         return pat.match(x)
     finally:
-        signal.setitimer(signal.ITIMER_REAL, 0)
-        signal.signal(signal.SIGALRM, old)
+        signal.setitimer(signal.ITIMER_VIRTUAL, 0)
+        signal.signal(signal.SIGVTALRM, old)
 
 
 def py_patterns():
@@ -223,7 +227,7 @@ def run(ctx):
             try:
                 m = limited_match(pat, x)
             except MatchTimeout:
-                violations.append({"key": None, "what": "a compiled pattern needs more than 2 s on an input of a few hundred characters", "pattern": name,
+                violations.append({"key": None, "what": "a compiled pattern needs more than 2 s of CPU on an input of a few hundred characters", "pattern": name,
                                    "input": x if isinstance(x, str) else x.hex(), "chars": len(x)})
                 hist["xcheck:timeout"] += 1
                 if hist["xcheck:timeout"] >= 3:
@@ -275,10 +279,11 @@ def run(ctx):
         got = drive.run_model(wreqs, timeout=900)
         for j, (name, kind, pre, u, tail) in enumerate(jobs):
             w = [got[j * 3 + i].get("work", 0) for i in range(3)]
-            w = [10 ** 12 if x is None else x for x in w]     # None: the search tree exceeds the driver's budget on that input
+            over_budget = any(x is None for x in w)            # None: the search tree exceeds the driver's budget on that input
+            w = [10 ** 12 if x is None else x for x in w]
             evaluations += 1
             distinct.add((name, u, pre[-3:]))
-            if w[0] > 0 and w[1] / w[0] >= EXP_RATIO and w[2] / max(w[1], 1) >= EXP_RATIO:
+            if over_budget or (w[0] > 0 and w[1] / w[0] >= EXP_RATIO and w[2] / max(w[1], 1) >= EXP_RATIO):
                 hist["pump:suspect"] += 1
                 # confirm on the implementation: time the public API while pumping
                 series = confirm(kind, pre, u, tail)
@@ -297,15 +302,17 @@ def run(ctx):
     for label, make, sizes in timing_families(ctx):
         ts = timed_series(make, sizes)
         evaluations += len(ts)
-        hist["family:" + label] = round(max(ts), 4)
         distinct.add(label)
-        # exponential: time keeps doubling over the last three sizes and is no longer negligible
-        if len(ts) >= 4 and ts[-1] > 0.25 and all(b > 1.7 * a for a, b in zip(ts[-4:], ts[-3:])):
-            violations.append({"key": None, "what": "parsing time doubles with each step of an adversarial family", "family": label,
-                               "sizes": list(sizes[: len(ts)]), "seconds": [round(t, 4) for t in ts]})
-        elif ts[-1] > 2.0:
-            violations.append({"key": None, "what": "an input of a few hundred / thousand bytes stalls the caller for more than 2 s", "family": label,
-                               "sizes": list(sizes[: len(ts)]), "seconds": [round(t, 4) for t in ts]})
+        verdict = judge_family(list(sizes), ts)
+        if verdict:
+            # measured again: a point counts with the smaller of its two CPU times (one disturbed sample cannot alarm)
+            ts2 = timed_series(make, sizes)
+            ts = [min(a, b) for a, b in zip(ts, ts2)]
+            verdict = judge_family(list(sizes), ts)
+            hist["family:remeasured"] += 1
+        hist["family:" + label] = round(max(ts), 4)
+        if verdict:
+            violations.append({"key": None, "what": verdict, "family": label, "sizes": list(sizes[: len(ts)]), "cpu_seconds": [round(t, 4) for t in ts]})
     # ---------------- 4. hand-written filter parser: call-count correspondence with the counting model, step counts against the quadratic bound
     ftexts = filter_cost_inputs(rng, ctx)
     creq = []
@@ -433,7 +440,7 @@ def run(ctx):
                 "CPython's; (2) pumping candidates (each substring of length 1-4 of generated sentences repeated k=4,7,10 times, tail kept or broken) "
                 "are scored with the model's exact step count Re.work and confirmed by timing from_string when the count multiplies; (3) fixed "
                 "adversarial families (unterminated strings, escapes, space runs, list items, arcs, options, nesting, byte-by-byte delivery) are timed "
-                "at growing sizes on the public API; (4) the filter parser is run under a line tracer on nested / wide / broken families and generated "
+                "(CPU seconds) at growing sizes on the public API and judged by their local growth exponent (> 4 over the last three steps) or a 2 s call; (4) the filter parser is run under a line tracer on nested / wide / broken families and generated "
                 "sentences: executed source lines must stay below 100*(n+1)^2+5000 and the number of parser-function calls is compared with the "
                 "counting model's (Model/FilterCost.lean; equal on the unchanged tree, histogram calls:differ-from-model counts differences; more than "
                 "twice the model's count, or a different outcome, is a disagreement); the number of unpack_ldap_message calls of a receive() on generated / truncated / corrupted buffers is compared "
@@ -448,49 +455,99 @@ def run(ctx):
     }
 
 
-def _series_worker(make, sizes, conn):
+def judge_family(sizes, ts):
+    """super-polynomial: over the last three steps the CPU time grows faster than size^4 (the local exponent log(t2/t1)/log(n2/n1) stays
+    above 4; sizes that double give exponent 1 for linear and 2 for quadratic code, sizes that grow by one or two units give huge exponents
+    for code that doubles per unit) and the time is no longer negligible; or one call burns more than 2 CPU seconds"""
+    import math
+
+    ns = sizes[: len(ts)]
+    ex = []
+    for (n1, t1), (n2, t2) in zip(zip(ns, ts), zip(ns[1:], ts[1:])):
+        ex.append(math.log(max(t2, 1e-7) / max(t1, 1e-7)) / math.log(n2 / n1) if n2 > n1 else 0.0)
+    if len(ts) >= 4 and ts[-1] > 0.25 and all(e > 4.0 for e in ex[-3:]):
+        return "parsing time grows faster than size^4 over the last steps of an adversarial family (super-polynomial)"
+    if ts[-1] > 2.0:
+        return "an input of a few hundred / thousand bytes costs the caller more than 2 s of CPU"
+    return None
+
+
+class Inconclusive(Exception):
+    """a measurement could not be taken (the machine, not the code): infrastructure, exit 2"""
+
+
+class _Stall(BaseException):
+    pass
+
+
+def _series_worker(make, sizes, conn, per_call):
+    """CPU seconds of make(n) for growing n; a call that burns more than `per_call` CPU seconds is cut off"""
+    import signal
+
+    def on_alarm(signum, frame):
+        raise _Stall()
+
+    signal.signal(signal.SIGVTALRM, on_alarm)
     for n in sizes:
-        t0 = time.perf_counter()
+        t0 = time.process_time()
+        signal.setitimer(signal.ITIMER_VIRTUAL, per_call)
         try:
             make(n)
         except BaseException:  # noqa: BLE001
             pass
-        dt = time.perf_counter() - t0
+        finally:
+            signal.setitimer(signal.ITIMER_VIRTUAL, 0)
+        dt = time.process_time() - t0
         conn.send(dt)
-        if dt > 2.0:
+        if dt >= per_call:
             break
     conn.close()
 
 
-def timed_series(make, sizes, limit=8.0):
-    """time make(n) for growing n in a forked child so that a stalled call can be killed; a call that never returns counts as `limit`"""
+def _cpu_of(pid):
+    try:
+        with open(f"/proc/{pid}/stat") as fh:
+            f = fh.read().rsplit(")", 1)[1].split()
+        return (int(f[11]) + int(f[12])) / os.sysconf("SC_CLK_TCK")
+    except Exception:  # noqa: BLE001
+        return None
+
+
+def timed_series(make, sizes, per_call=2.5, wall=120.0):
+    """CPU time of make(n) for growing n, measured in a forked child so that a call that never returns can be killed.  Times are
+    the child's own CPU seconds, so a loaded or briefly frozen machine does not inflate them.  A call cut off by the per-call CPU
+    limit is reported as that limit.  If the child stops answering without having burnt CPU (frozen machine), the measurement is
+    inconclusive (exit 2), never a violation."""
     import multiprocessing as mp
 
     ctxm = mp.get_context("fork")
     parent, child = ctxm.Pipe(duplex=False)
-    p = ctxm.Process(target=_series_worker, args=(make, sizes, child))
+    p = ctxm.Process(target=_series_worker, args=(make, sizes, child, per_call))
     p.start()
     child.close()
     ts = []
-    deadline = time.time() + limit
-    while True:
-        left = deadline - time.time()
-        if left <= 0:
-            ts.append(limit)
-            break
-        if parent.poll(left):
+    deadline = time.time() + wall
+    try:
+        while True:
+            left = deadline - time.time()
+            if left <= 0 or not parent.poll(left):
+                cpu = _cpu_of(p.pid)
+                if cpu is not None and cpu - sum(ts) >= per_call:
+                    ts.append(cpu - sum(ts))      # burning CPU without polling for the timer signal: a stall all the same
+                    break
+                raise Inconclusive(f"timing child silent for {wall}s of wall time having used {cpu} CPU seconds")
             try:
                 ts.append(parent.recv())
             except EOFError:
                 break
-            if ts[-1] > 2.0:
+            if ts[-1] >= per_call:
                 break
-        else:
-            ts.append(limit)
-            break
-    if p.is_alive():
-        p.kill()
-    p.join()
+    finally:
+        if p.is_alive():
+            p.kill()
+        p.join()
+    if not ts:
+        raise Inconclusive("timing child returned no sample")
     return ts
 
 
@@ -501,7 +558,7 @@ def confirm(kind, pre, u, tail):
     else:
         f = PS.CLS[kind].from_string
     ks = list(range(8, 66, 2))
-    ts = timed_series(lambda k: f(pre + u * k + tail), ks, limit=6.0)
+    ts = timed_series(lambda k: f(pre + u * k + tail), ks)
     ks = ks[: len(ts)]
     big = [t for t in ts if t > 0.002]
     expo = len(big) >= 4 and all(b > 1.5 * a for a, b in zip(big[-4:], big[-3:])) and ts[-1] > 0.2
